@@ -82,7 +82,7 @@ pub fn check(ls: &LangSet, code: &str, s: &str, w: &str, shift: usize) -> (usize
 }
 
 pub fn run(ctx: &Ctx) -> Outcome {
-    let n_texts = ctx.n(150_000, 5_000_000);
+    let n_texts = ctx.n(600_000, 12_000_000);
     let rep = run_sharded(ctx, |wk, nw, rep| {
         let ls = LangSet::new();
         let mut rng = Rng::derive(ctx.seed, "C17", wk as u64);
